@@ -175,6 +175,12 @@ type Rejection struct {
 // Rejected scenarios are removed and the rest re-validated, so every trace is
 // examined. Returns rejections; error = infrastructure failure.
 func ValidateBatch(c *Check, module, cfg string, schemaRaw []byte, scs []*Scenario, lines func(*Scenario) [][]byte, scratch string) ([]Rejection, error) {
+	return ValidateBatchWith(c, TLCOpts{Module: module, Config: cfg}, schemaRaw, scs, lines, scratch)
+}
+
+// ValidateBatchWith is ValidateBatch with explicit TLC options (e.g. CfgEdit for constants).
+func ValidateBatchWith(c *Check, base TLCOpts, schemaRaw []byte, scs []*Scenario, lines func(*Scenario) [][]byte, scratch string) ([]Rejection, error) {
+	module := base.Module
 	var rej []Rejection
 	remaining := scs
 	for round := 0; round < 12 && len(remaining) > 0; round++ {
@@ -189,9 +195,15 @@ func ValidateBatch(c *Check, module, cfg string, schemaRaw []byte, scs []*Scenar
 				all = append(all, string(ln))
 			}
 		}
-		res, err := RunTLC(TLCOpts{Module: module, Config: cfg, Workers: 1, DFS: true,
-			Data:    map[string][]byte{"trace.ndjson": buf.Bytes(), "schema.json": schemaRaw},
-			Scratch: filepath.Join(scratch, fmt.Sprintf("tv%d", round)), Timeout: 20 * time.Minute})
+		o := base
+		o.Workers, o.DFS = 1, true
+		o.Data = map[string][]byte{"trace.ndjson": buf.Bytes()}
+		if schemaRaw != nil {
+			o.Data["schema.json"] = schemaRaw
+		}
+		o.Scratch = filepath.Join(scratch, fmt.Sprintf("tv%d", round))
+		o.Timeout = 20 * time.Minute
+		res, err := RunTLC(o)
 		if err != nil {
 			return rej, err
 		}
